@@ -49,12 +49,37 @@ func obPanicAnalysis(c *rules.Ctx, id string) {
 	c.PanicScan(ob, "analysis-entry", analysisRoots(c, ob), exc)
 }
 
+var nilCfgAnalysis = rules.NilGuardCfg{
+	Rels: map[string]bool{relAnalysis: true, relLsp: true},
+	NonNilFields: map[string]string{
+		"VarDeclaration.Type":     "first token of the varDeclaration rule (checked against Numscript.g4 by C18.1m)",
+		"FnCall.Caller":           "always built as &FnCallIdentifier{...} (checked on the constructors by C18.1m)",
+		"SourceOverdraft.Address": "both overdraft alternatives are only predicted after a complete address expression followed by ALLOWING (grammar shape checked by C18.1m)",
+	},
+	Exceptions: map[string]rules.NilException{
+		"nil:internal/analysis.CheckResult.checkExpression:invoke:GetRange": {
+			Reason: "the left operand is dereferenced only on the arm where its inferred type is neither any nor number/monetary, and the inference helper answers any for a nil expression",
+			Side:   rules.SideInferAnyOnNil(relAnalysis, "(*CheckResult).typeOf")},
+	},
+	MapValueNonNil: map[string]map[string]bool{"declaredVars": {"Name": true}, "varResolution": {"Name": true}},
+}
+
+func obNilGuard(c *rules.Ctx, id string) {
+	ob := c.R.Ob(id, "nilguard", "every dereference of a possibly-nil AST value in the checker, hover, definition, symbols and the LSP handlers is guarded by a nil test on every path", 15)
+	c.NilGuard(ob, nilCfgAnalysis)
+	obm := c.R.Ob(id+"m", "nilguard/model", "the facts the nil model relies on hold: FnCall.Caller and VarDeclaration.Type are never nil; declarations enter the checker's maps only with a non-nil Name", 4)
+	c.NilModelChecks(obm)
+}
+
 func init() {
 	Registry["C18"] = &Spec{
 		Explanation: "",
 		Assumptions: []string{A1, A3, A4},
 		Run: func(c *rules.Ctx) {
+			obNilGuard(c, "C18.1")
 			obPanicAnalysis(c, "C18.2")
+			ob3 := c.R.Ob("C18.3", "sumcheck/S1", "a panicking default in the checker / hover / LSP handlers sits under an exhaustive switch that also handles nil (partial trees)", 10)
+			c.S1(ob3, selPkgs(nil, map[string]bool{relAnalysis: true}, relAnalysis, relLsp))
 		},
 	}
 }
